@@ -44,6 +44,8 @@ func condProgram(cond *model.Cond, pos int) *model.Script {
 		st = model.Stmt{Kind: model.SIf, Arms: []model.Arm{{Cond: &model.Cond{Kind: model.CAnd, L: firstLeafCopy(cond), R: guard(1)}, Body: []model.Stmt{cmd("g1")}}, {Cond: cond, Body: []model.Stmt{cmd("t")}}}, HasElse: true, Else: []model.Stmt{cmd("f")}}
 	case 12: // ... or is tested again inside the loop body
 		st = model.Stmt{Kind: model.SWhile, Cond: cond, Body: []model.Stmt{{Kind: model.SIf, Arms: []model.Arm{{Cond: firstLeafCopy(cond), Body: []model.Stmt{cmd("t")}}}}, cmd("u")}}
+	case 13: // (C11 only) last elif with an empty body and no else: nothing depends on the condition, but an AutoVar command in it still runs
+		st = model.Stmt{Kind: model.SIf, Arms: []model.Arm{{Cond: guard(1), Body: []model.Stmt{cmd("g1")}}, {Cond: cond, Body: nil}}}
 	case 7: // middle elif with an empty body, no else: the condition still guards the later elif
 		st = model.Stmt{Kind: model.SIf, Arms: []model.Arm{{Cond: guard(1), Body: []model.Stmt{cmd("g1")}}, {Cond: cond, Body: nil}, {Cond: guard(2), Body: []model.Stmt{cmd("g2")}}}}
 	case 8: // if with an empty body, then elif
